@@ -1,7 +1,14 @@
 package authz
 
 import (
+	"context"
 	"io"
+	"time"
+
+	envoy "github.com/envoyproxy/go-control-plane/envoy/service/auth/v3"
+
+	"github.com/istio-ecosystem/authservice/internal"
+	"github.com/istio-ecosystem/authservice/internal/oidc"
 	"net/http"
 	"strings"
 	"sync"
@@ -13,6 +20,7 @@ import (
 func init() {
 	verifHarnesses["VerifC16_SharedConfigWrittenByDiscovery"] = VerifC16_SharedConfigWrittenByDiscovery
 	verifHarnesses["VerifC16_StaticConfigIsReadOnly"] = VerifC16_StaticConfigIsReadOnly
+	verifHarnesses["VerifC16_CheckWritesSharedStateOnlyUnderLock"] = VerifC16_CheckWritesSharedStateOnlyUnderLock
 }
 
 type kitDiscoveryRT struct{ body string }
@@ -73,4 +81,64 @@ func VerifC16_StaticConfigIsReadOnly() {
 	_ = env.h.Process(ctxBackground(), req, resp)
 	vn.Unwatch()
 	vn.Cover("C16/static-config-audited", true)
+}
+
+// VerifC16_CheckWritesSharedStateOnlyUnderLock (shared-write audit): one handler serves all
+// request goroutines of its filter. With statically configured endpoints a check of any kind
+// (ordinary path, callback, logout; any cookie; any provider answer) writes nothing that outlives
+// it -- handler fields, configuration, generator, HTTP client, package-level variables -- except
+// under a mutex. (The session store has its own audit, C12; with a discovery URI the handler
+// construction writes the shared configuration: known finding.) Natively: the real in-memory
+// store and generator, many goroutines, the race detector.
+func VerifC16_CheckWritesSharedStateOnlyUnderLock() {
+	if !vn.Symbolic() {
+		nativeC16ConcurrentChecks()
+		return
+	}
+	kc := kitConfig(kitCfgOpts{accessToken: true, logout: true})
+	store := kitStore(1, kc.cfg.ClientId, false, false)
+	env := kitHandler(kc.cfg, store, false, false)
+	shape := pathAny
+	switch vn.Choice("request-kind", 3) {
+	case 1:
+		shape = pathCallback
+	case 2:
+		shape = pathLogout
+	}
+	vn.WatchSharedWrites()
+	req, _ := kitArbitraryRequest(kc, shape)
+	resp := &envoy.CheckResponse{}
+	_ = env.h.Process(context.Background(), req, resp)
+	vn.Unwatch()
+	vn.Cover("C16/check-audited", true)
+}
+
+func nativeC16ConcurrentChecks() {
+	cfg := &oidcv1.OIDCConfig{
+		AuthorizationUri: "https://idp/auth", TokenUri: "https://idp/token", CallbackUri: "https://app/callback",
+		ClientId: "client", ClientSecretConfig: &oidcv1.OIDCConfig_ClientSecret{ClientSecret: "secret"}, Scopes: []string{"openid"},
+		IdToken: &oidcv1.TokenConfig{Header: "authorization", Preamble: "Bearer"}, Logout: &oidcv1.LogoutConfig{Path: "/logout", RedirectUri: "https://idp/logout"},
+		JwksConfig: &oidcv1.OIDCConfig_Jwks{Jwks: vn.JWKSDoc("good")},
+	}
+	clock := oidc.Clock{}
+	mem := oidc.NewMemoryStore(&clock, 0, 0)
+	h := &oidcHandler{
+		log: internal.Logger(internal.Authz), config: cfg, jwks: &symJWKS{cfg: cfg}, sessions: &kitFactory{store: mem},
+		sessionGen: oidc.NewRandomGenerator(), clock: clock, httpClient: &http.Client{Transport: &kitDiscoveryRT{body: "{}"}},
+	}
+	var wg sync.WaitGroup
+	for i := 0; i < 8; i++ {
+		wg.Add(1)
+		go func(i int) {
+			defer wg.Done()
+			for j := 0; j < 50; j++ {
+				for _, path := range []string{"/app", "/logout", "/callback?state=s&code=c"} {
+					resp := &envoy.CheckResponse{}
+					_ = h.Process(context.Background(), kitHTTPReq("https", "app", path, map[string]string{}), resp)
+				}
+			}
+		}(i)
+	}
+	wg.Wait()
+	_ = time.Now()
 }
